@@ -15,12 +15,12 @@ CHECKS = {
             "DESIGN.md section 3 C07"),
     "C01": ("exploration",
             "Hypothesis-generated analytic velocity fields, metrics and time steps; differential of Tracker.update against independent EF/RK2/RK4 references (one step, 1e-9 cell) + observed order of convergence vs a 64x finer reference",
-            "The real Tracker is driven with a plug-in analytic forcing (steady and time-dependent fields, dx != dy, dt 1 s..1 day, displacements up to 0.95 cell) and its one-step result compared with the scheme's prescription incl. the fractional times requested; trajectories at n, 2n, 4n steps must show order >= k-0.5; the analytic helpers get_velocity1/2/4 get the same two oracles. Part 'stock' drives Tracker + the stock ROMS Forcing + the stock ROMS Grid from generated files (fields linear in x, y, t between two frames 1-4 steps apart, metric varying by cell, subgrids, forward and reversed) and applies the same one-step identity.",
-            "Uniform metric per case via a plug-in grid (the stock ROMS grid returns dx for both directions; part 'stock' takes dx of the start cell from the generated file); RK2 may be midpoint or Heun; order check is one-sided and only judged above a 1e-10 noise floor.",
+            "The real Tracker is driven with a plug-in analytic forcing (steady and time-dependent fields, dx != dy, dt 1 s..1 day, displacements up to 0.95 cell) and its one-step result compared with the scheme's prescription incl. the fractional times requested; trajectories at n, 2n, 4n steps must show order >= k-0.5; the analytic helpers get_velocity1/2/4 get the same two oracles. Part 'stock' drives Tracker + the stock ROMS Forcing + the stock ROMS Grid from generated files (fields linear in x, y, t between two frames 1-4 steps apart, metric varying by cell, subgrids, forward and reversed, optionally a current that varies with depth with particles at different depths and a quarter of the particles switched off) and applies the same one-step identity.",
+            "Uniform metric per case via a plug-in grid (the stock ROMS grid returns dx for both directions; part 'stock' takes dx of the start cell from the generated file); RK2 may be midpoint or Heun; order check is one-sided and only judged above a 1e-10 noise floor and where an independent implementation of the scheme itself shows its order at the same step counts (asymptotic regime).",
             "DESIGN.md section 3 C01"),
     "C02": ("exploration",
             "Hypothesis-generated synthetic ROMS files and positions; differential against an independent C-grid interpolator + convexity, linear-exactness and subgrid-vs-full-grid metamorphic relations",
-            "Synthetic grid/forcing files (sizes, N incl. 1, both transforms, random stretching, bathymetries, masks with garbage on land faces, f8/f4/packed storage, legal subgrids incl. negative spellings) are read by the real Grid and Forcing; velocity and scalar forcing at 24-48 positions (uniform, edges, corners, +-1 ulp, rim; depths on levels, above the surface, below the bottom) are compared with the reference, with the node range, with the closed form for linear fields, and between subgrid and full grid; the sampled frame is the first or (after five clock/forcing updates) the second, which may live in a file of its own with its own storage and packing parameters.",
+            "Synthetic grid/forcing files (sizes, N incl. 1, both transforms, random stretching, bathymetries, masks with garbage on land faces, f8/f4/packed storage, legal subgrids incl. negative spellings) are read by the real Grid and Forcing; velocity and scalar forcing at 24-48 positions (uniform, edges, corners, +-1 ulp, rim; depths on levels, above the surface, below the bottom) are compared with the reference, with the node range, with the closed form for linear fields, and between subgrid and full grid; the sampled frame is the first or (after five clock/forcing updates) the second, which may live in a file of its own with its own storage and packing parameters; in two fifths of the cases some particles die after the forcing was evaluated and are removed from the state (what a sparse output record does) before the velocity of the survivors is requested.",
             "At exactly half-way positions either neighbouring cell is accepted as the particle's own cell; tolerance 1e-12 (f8) / 8*2^-23 (f4, packed).",
             "DESIGN.md section 3 C02"),
     "C03": ("exploration",
@@ -30,7 +30,7 @@ CHECKS = {
             "DESIGN.md section 3 C03"),
     "C04": ("exploration",
             "Hypothesis-generated release tables and windows; differential of the State after every release step against a reference release schedule",
-            "Tables (several times x rows, mult 0..5 or absent, rows before/in/at/after the window, extra int/float/time columns as instance or particle variables, header or names, column permutations, timestamp spellings, X/Y or lon/lat, discrete or continuous, forward or reversed) are read by the real ParticleReleaser; after each timer.update(); release.update() the newly appended particles must be exactly the scheduled rows repeated mult times, in file-row order, with their positions, extras and release time.",
+            "Tables (several times x rows, mult 0..5 or absent, rows before/in/at/after the window, extra int/float/time columns as instance or particle variables, header or names, column permutations, timestamp spellings, X/Y or lon/lat, discrete or continuous, forward or reversed) are read by the real ParticleReleaser; after each timer.update(); release.update() the newly appended particles must be exactly the scheduled rows repeated mult times, in file-row order, with their positions, extras and release time. Part 'warm' runs ladim.main warm-started from a drawn file boundary of a split run with a recording release plug-in: nothing is released at the restart time, every later row / tick enters at its own step and position with the next pids.",
             "Times on the model grid, table sorted in simulation order, continuous file times on the tick grid (the property's quantifier); text->float parsing tolerance 1e-13.",
             "DESIGN.md section 3 C04"),
     "C05": ("exploration",
@@ -45,7 +45,7 @@ CHECKS = {
             "DESIGN.md section 3 C06"),
     "C16": ("exploration",
             "Hypothesis-generated fields/masks/positions against an independent masked-bilinear reference (sampler); generated polar-stereographic grids with round-trip and residual oracles (xy2ll/ll2xy); end-to-end lon/lat release and output",
-            "sample2D: value, convexity, exactness on bilinear fields, insensitivity to masked nodes, undefined and outside substitutes (incl. 0.0 and NaN), ValueError without substitute. Grid: ll2xy(xy2ll(p)) must return, stay inside the array and meet the solver's stopping residual and the grid-unit bound it implies. End to end: particles released by lon/lat start where the interpolated coordinates match, and lon/lat in every record equal the bilinear interpolation at that record's X, Y.",
+            "sample2D: value, convexity, exactness on bilinear fields, insensitivity to masked nodes, undefined and outside substitutes (incl. 0.0 and NaN), ValueError without substitute. Grid: ll2xy(xy2ll(p)) must return, stay inside the array and meet the solver's stopping residual and the grid-unit bound it implies. End to end: particles released by lon/lat start where the interpolated coordinates match, and lon/lat in every record equal the bilinear interpolation at that record's X, Y - also when a user's IBM asks the grid for lon/lat at the state's positions and moves the particles in place (state['X'] += ...).",
             "Sphere polar-stereographic grids 160 m..20 km, up to 60 (thorough 200) cells a side, not straddling +-180.",
             "DESIGN.md section 3 C16"),
     "C08": ("fault_enumeration",
@@ -65,7 +65,7 @@ CHECKS = {
             "DESIGN.md section 3 C10"),
     "C11": ("exploration",
             "Hypothesis-generated parameters and generator seeds; statistical oracle with explicit 6.5-sigma acceptance bands + exact metamorphic scaling relations under a shared seed",
-            "Clouds of 1e4..1e5 (thorough 1e6) particles in still water on an open plug-in grid: mean, variance (= 2*D*t per unit), X-Y, X-Z, step-to-step and neighbour correlations per case; quadrupling D doubles and doubling dx halves every displacement under the same seed; D = Dz = 0 is bitwise deterministic.",
+            "Clouds of 1e4..1e5 (thorough 1e6) particles in still water on an open plug-in grid: mean, variance (= 2*D*t per unit), X-Y, X-Z, step-to-step and neighbour correlations per case; quadrupling D doubles and doubling dx halves every displacement under the same seed; D = Dz = 0 is bitwise deterministic. A third of the clouds start from a restart file with single-precision positions read by ladim.warm_start.",
             "False-alarm probability ~8e-11 per statistical test; Tracker.rng is replaced by a seeded generator after construction.",
             "DESIGN.md section 3 C11"),
     "C14": ("exploration",
@@ -85,7 +85,7 @@ CHECKS = {
             "DESIGN.md section 3 C17"),
     "C18": ("exploration",
             "Hypothesis-generated abstract simulations rendered in several spellings; differential between the output files of the YAML-v2, TOML-v2, YAML-v1 and defaulted-section runs",
-            "Abstract simulations inside the v1 vocabulary (forcing file or wildcard, optional grid file, subgrid, extra forcing, discrete/continuous release, extra release columns as particle variables, IBM module with parameters and variables, scheme, period spellings, reference time) are rendered as YAML v2, TOML v2 (native or string date-times), YAML v1 and a second v2 file with optional sections omitted vs present-but-empty and the grid section omitted / present without a module key (also completely empty) / with the module spelled out; in a third of the cases Grid and Forcing come from a user file given by path whose metric differs from the stock grid's; all four runs must complete and their output files agree in dimensions, variables, attributes and every value.",
+            "Abstract simulations inside the v1 vocabulary (forcing file or wildcard, optional grid file, subgrid, extra forcing, discrete/continuous release, extra release columns as particle variables, IBM module with parameters and variables, scheme, period spellings, reference time) are rendered as YAML v2, TOML v2 (native or string date-times), YAML v1 and a second v2 file with optional sections omitted vs present-but-empty and the grid section omitted / present without a module key (also completely empty) / with the module spelled out; discrete releases may still carry a release frequency (legacy: release_type discrete or absent); in a third of the cases Grid and Forcing come from a user file given by path whose metric differs from the stock grid's; all four runs must complete and their output files agree in dimensions, variables, attributes and every value.",
             "forcing.module is always spelled; empty sections are written as {}.",
             "DESIGN.md section 3 C18"),
     "C19": ("exploration",
@@ -95,7 +95,7 @@ CHECKS = {
             "DESIGN.md section 3 C19"),
     "C20": ("fault_enumeration",
             "enumeration of every fault kind x every base scenario (x drawn fault parameters); oracle: the run raises before Model.update is entered and leaves no output record",
-            "37 fault kinds (forcing not covering the window at either end, frames unsorted or duplicated within/across files, start/stop/dt absent/empty/null/zero, stop on the wrong side, releases all before/after/only at the stop time, no position columns, missing config/grid/forcing/release files, missing mandatory sections, six kinds of illegal subgrid) are injected one at a time into 16 base scenarios (forward/reversed x single/multi-file x discrete/continuous x grid section given/omitted); the unfaulted bases must run clean.",
+            "37 fault kinds (forcing not covering the window at either end, frames unsorted or duplicated within/across files, start/stop/dt absent/empty/null/zero, stop on the wrong side, releases all before/after/only at the stop time, no position columns, missing config/grid/forcing/release files, missing mandatory sections, six kinds of illegal subgrid) are injected one at a time into 16 base scenarios (forward/reversed x single/multi-file x discrete/continuous x grid section given/omitted); the unfaulted bases must run clean. Part 'warm': the faults in time (stop before the restart time, forcing ending before the stop, forcing starting after the restart time) injected into 8 warm-started bases (restart from a cold run's file or from the file of a run that was itself warm-started, start key kept or dropped, reference time configured or not).",
             "'stops with an error' = SystemExit or any exception; 'before the simulation starts' = Model.update never entered.",
             "DESIGN.md section 3 C20"),
     "C12": ("exploration",
@@ -105,7 +105,7 @@ CHECKS = {
             "DESIGN.md section 3 C12"),
     "C13": ("exploration",
             "Hypothesis-generated clocks and period spellings against integer-second reference arithmetic; malformed spellings must raise ValueError",
-            "TimeKeeper is constructed from generated start/stop/reference/dt spellings in both directions and stepped; running clock, step<->time conversions at generated (also negative) steps, CF time values and units are compared with integer arithmetic; every spelling of a period must normalise to the same duration; malformed ones must be rejected.",
+            "TimeKeeper is constructed from generated start/stop/reference/dt spellings in both directions and stepped; running clock, step<->time conversions at generated (also negative) steps, CF time values and units are compared with integer arithmetic; every spelling of a period must normalise to the same duration; malformed ones must be rejected; a clock put on the start time by assignment of step and time (what the model's warm start does) must read start +- n*dt from there on, incl. its CF time value.",
             "Units s, m, h (as documented for step2nctime).",
             "DESIGN.md section 3 C13"),
 }
